@@ -272,9 +272,9 @@ static void op_rt(char **w, int n)
 	 * appearance (listed ones first, then the callback's answers) ---- */
 	printf(" cand=");
 	{
-		const char *seen[64]; int nseen = 0;
+		static const char *seen[1024]; int nseen = 0;
 		if (hdr && L.data + hdr <= g_alen)
-			for (int i = 0; i < nrp + nca && nseen < 64; i++) {
+			for (int i = 0; i < nrp + nca && nseen < 1024; i++) {
 				const char *c = i < nrp ? rp[i] : ca[i - nrp];
 				int dup = 0;
 				for (int k = 0; k < nseen; k++) if (strcmp(seen[k], c) == 0) dup = 1;
